@@ -132,6 +132,34 @@ Definition process_wait (waitpid : nat -> Q -> bool -> wp) (pid_exists : Q -> bo
           now s, rev (slept s))
        end.
 
+(* ---- psutil.Popen: a Process that wraps a subprocess.Popen (psutil/__init__.py, class Popen) ----
+   Two memos exist side by side: subprocess's `returncode` (set by poll()/wait()/communicate()/__exit__ of the
+   wrapped object, which reap the child themselves) and psutil's `_exitcode`.  Popen.wait():
+       if self.__subproc.returncode is not None: return self.__subproc.returncode
+       ret = super().wait(timeout); self.__subproc.returncode = ret; return ret            *)
+Record popen := mk_popen {
+  sub_rc : option Z;    (* subprocess-side returncode; None = not collected yet (0 IS a status) *)
+  ps_obj : pobj }.      (* the psutil side: _exitcode cache, waitpid calls made *)
+
+Definition new_popen : popen := {| sub_rc := None; ps_obj := new_pobj |}.
+
+Definition popen_wait (waitpid : nat -> Q -> bool -> wp) (pid_exists : Q -> bool) (pid : Z)
+    (st : popen) (timeout : option Q) (fuel : nat) (t0 : Q) : wres * popen * Q * list Q :=
+  match sub_rc st with
+  | Some z => (RInt z, st, t0, [])
+  | None =>
+    let '(r, o', t', sl) := process_wait waitpid pid_exists pid (ps_obj st) timeout fuel t0 in
+    (r, {| sub_rc := match r with RInt z => Some z | _ => None end; ps_obj := o' |}, t', sl)
+  end.
+
+(* the wrapped object collects status z itself (poll / wait / communicate / leaving the `with` block):
+   subprocess only asks the kernel while its returncode is still None *)
+Definition popen_collect (st : popen) (z : Z) : popen :=
+  match sub_rc st with
+  | Some _ => st
+  | None => {| sub_rc := Some z; ps_obj := ps_obj st |}
+  end.
+
 (* ---- wait_procs ---- *)
 Record koracle := mk_ko {
   ko_wp : nat -> Q -> bool -> wp;
